@@ -59,7 +59,7 @@ func assemble(p map[string]fn) (lib, app []byte) {
 			}
 			for _, n := range names {
 				for _, nd := range p[n].Body {
-					if nd.K == "host" {
+					if nd.K == "host" || nd.K == "hostd" || nd.K == "hosts" {
 						if _, ok := idx["host:"+nd.target()]; !ok {
 							idx["host:"+nd.target()] = m.ImportFunc("host", "cb_"+nd.target(), nil, nil)
 						}
@@ -113,7 +113,7 @@ func assemble(p map[string]fn) (lib, app []byte) {
 					body = append(body, wb.Cat(wasm.OpcodeTailCallReturnCall, wb.U32(idx[nd.target()]))...)
 				case "rcalli":
 					body = append(body, wb.Cat(wb.I32Const(int32(slot[nd.target()])), wasm.OpcodeTailCallReturnCallIndirect, wb.U32(tVoid), wb.U32(0))...)
-				case "host":
+				case "host", "hostd", "hosts":
 					body = append(body, wb.Call(idx["host:"+nd.target()])...)
 				case "ret":
 					body = append(body, wasm.OpcodeReturn)
@@ -156,10 +156,16 @@ func runItem(id int, raw json.RawMessage) common.Result {
 	nhost := 0
 	for _, f := range it.Prog {
 		for _, nd := range f.Body {
-			if nd.K == "host" {
-				t := nd.target()
+			if nd.K == "host" || nd.K == "hostd" || nd.K == "hosts" {
+				t, kind := nd.target(), nd.K
 				hb.NewFunctionBuilder().WithFunc(func(ctx context.Context) {
-					if _, err := app.ExportedFunction(t).Call(ctx); err != nil {
+					if kind == "hostd" { // the callback runs under a derived context with its own, tighter deadline
+						c, cancel := context.WithTimeout(ctx, 90*time.Millisecond)
+						defer cancel()
+						ctx = c
+					}
+					_, err := app.ExportedFunction(t).Call(ctx)
+					if err != nil && kind != "hosts" { // "hosts" swallows the error: its caller continues
 						panic(err)
 					}
 				}).Export("cb_" + t)
@@ -209,6 +215,8 @@ func runItem(id int, raw json.RawMessage) common.Result {
 		c, cancel := context.WithCancelCause(bg)
 		go func() { time.Sleep(60 * time.Millisecond); cancel(custom) }()
 		ctx, wantCode = c, sys.ExitCodeContextCanceled
+	case "inner-deadline": // the outer context never ends; the derived context of the host callback does
+		wantCode = sys.ExitCodeDeadlineExceeded
 	case "deadline-cause":
 		c, cancel := context.WithTimeoutCause(bg, 100*time.Millisecond, custom)
 		defer cancel()
